@@ -88,6 +88,11 @@ type sOp struct {
 	// after the reply, before the dump: a store maintenance run (admin.storeMaint: verification with repair).  On a
 	// store whose hashes are right it changes nothing, so the model does not hear of it
 	MaintAfter bool `json:"maint_after,omitempty"`
+	// API "move": the request is made through client.MoveNode(Node, OldParent, Parent) instead of being sent as it
+	// stands; only used where the new edge must be refused (a move below the node itself), so that what the helper sends
+	// first is this request and nothing may follow it. The model sees the request as written here.
+	API       string `json:"api,omitempty"`
+	OldParent string `json:"old_parent,omitempty"`
 }
 
 type sView struct {
@@ -266,14 +271,24 @@ func storeRunScript(s *sScript) error {
 		if s.ReqTimeoutMs > 0 {
 			reqTimeout = time.Duration(s.ReqTimeoutMs) * time.Millisecond
 		}
-		msg, err := nc.Request(subject, payload, reqTimeout)
-		switch {
-		case err != nil:
-			step.Reply = 2
-			step.Err = err.Error()
-		case len(msg.Data) > 0:
-			step.Reply = 1
-			step.Err = string(msg.Data)
+		if op.API == "move" {
+			if err := client.MoveNode(nc, op.Node, op.OldParent, op.Parent, "mover"); err != nil {
+				step.Reply = 1
+				step.Err = err.Error()
+				if strings.Contains(step.Err, "timeout") || strings.Contains(step.Err, "no responders") {
+					step.Reply = 2
+				}
+			}
+		} else {
+			msg, err := nc.Request(subject, payload, reqTimeout)
+			switch {
+			case err != nil:
+				step.Reply = 2
+				step.Err = err.Error()
+			case len(msg.Data) > 0:
+				step.Reply = 1
+				step.Err = string(msg.Data)
+			}
 		}
 		if step.Reply == 2 {
 			// the instance does not answer any more; stop here
